@@ -213,6 +213,14 @@ def test_kind(test: ast.expr) -> str:
         right = test.comparators[0]
         r = "None" if isinstance(right, ast.Constant) and right.value is None else ("lit" if isinstance(right, (ast.Constant, ast.Attribute, ast.Tuple)) else "expr")
         return f"{left}{op}-{r}"
+    if isinstance(test, ast.Compare):
+        # a chain `a < x < 5`: the set of its links, each named like a single comparison by operator and right operand
+        operands = [test.left, *test.comparators]
+        links = set()
+        for op, right in zip(test.ops, operands[1:]):
+            r = "None" if isinstance(right, ast.Constant) and right.value is None else ("lit" if isinstance(right, (ast.Constant, ast.Attribute, ast.Tuple)) else "expr")
+            links.add(f"{type(op).__name__}-{r}")
+        return "chain(" + ",".join(sorted(links)) + ")"
     if isinstance(test, ast.Name):
         return "truthy"
     if isinstance(test, ast.NamedExpr):
